@@ -12,6 +12,8 @@ fn main() {
     let seed: u64 = args.get(2).and_then(|s| s.parse().ok()).unwrap_or(0);
     match cmd {
         "c15" => c15(seed),
+        "c11" => c11(seed),
+        "c11_ep" => c11_ep(),
         _ => {
             eprintln!("unknown subcommand");
             std::process::exit(2);
@@ -76,4 +78,110 @@ fn c15(seed: u64) {
     }
     let bmi = cfg!(target_feature = "bmi2");
     println!("{{\"ok\":true,\"cases\":{},\"subsets\":{},\"bmi2\":{}}}", cases, subsets, bmi);
+}
+
+
+// ---------------------------------------------------------------------------------------------------------
+/// C11 witness search: random long games (biased to reversible moves), comparing Game::can_declare_draw with an
+/// independent statement-level oracle: no result, and (current position occurred >= 3 times — same placement, side,
+/// castling rights, en-passant possibility — or the last 100 half-moves had no pawn move and no capture).
+fn pos_id(b: &Board) -> (Vec<u64>, Color, CastleRights, CastleRights, Option<File>) {
+    let mut v = vec![];
+    for p in ALL_PIECES.iter() {
+        v.push(b.pieces(*p).0 & b.color_combined(Color::White).0);
+        v.push(b.pieces(*p).0 & b.color_combined(Color::Black).0);
+    }
+    // en-passant POSSIBILITY: a legal en-passant capture exists
+    let mut ep = None;
+    if let Some(sq) = b.en_passant() {
+        for m in MoveGen::new_legal(b) {
+            if b.piece_on(m.get_source()) == Some(Piece::Pawn) && m.get_source().get_file() != m.get_dest().get_file() && b.piece_on(m.get_dest()).is_none() {
+                ep = Some(sq.get_file());
+            }
+        }
+    }
+    (v, b.side_to_move(), b.castle_rights(Color::White), b.castle_rights(Color::Black), ep)
+}
+/// the same identity but with the library's coarser en-passant notion (flag set whenever an enemy pawn stands beside
+/// the pushed pawn, capturable or not) — the known finding `c11_known_ep_identity` is exactly the gap between the two
+fn pos_id_lib(b: &Board) -> (Vec<u64>, Color, CastleRights, CastleRights, Option<File>) {
+    let mut id = pos_id(b);
+    id.4 = b.en_passant().map(|s| s.get_file());
+    id
+}
+
+fn c11(seed: u64) {
+    let mut rng = Rng(seed.wrapping_mul(0x9E3779B97F4A7C15) | 1);
+    let mut cases = 0u64;
+    let deadline = std::time::Instant::now() + std::time::Duration::from_secs(20);
+    while std::time::Instant::now() < deadline {
+        let mut game = Game::new();
+        let mut hist = vec![pos_id(&game.current_position())];
+        let mut hist_lib = vec![pos_id_lib(&game.current_position())];
+        let mut clock = 0u32;
+        let mut text = String::new();
+        for _ply in 0..260 {
+            let b = game.current_position();
+            if game.result().is_some() {
+                break;
+            }
+            let moves: Vec<ChessMove> = MoveGen::new_legal(&b).collect();
+            if moves.is_empty() {
+                break;
+            }
+            // prefer reversible moves (no pawn move, no capture) 15 times out of 16
+            let rev: Vec<ChessMove> = moves.iter().cloned().filter(|m| b.piece_on(m.get_source()) != Some(Piece::Pawn) && b.piece_on(m.get_dest()).is_none()).collect();
+            let pool = if !rev.is_empty() && rng.next() % 16 != 0 { &rev } else { &moves };
+            let m = pool[(rng.next() % pool.len() as u64) as usize];
+            let irreversible = b.piece_on(m.get_source()) == Some(Piece::Pawn) || b.piece_on(m.get_dest()).is_some();
+            if !game.make_move(m) {
+                println!("{{\"ok\":false,\"cases\":{},\"witness\":{{\"what\":\"legal move refused\",\"moves\":\"{}\"}}}}", cases, text);
+                std::process::exit(1);
+            }
+            text.push_str(&format!("{} ", m));
+            clock = if irreversible { 0 } else { clock + 1 };
+            let cur = pos_id(&game.current_position());
+            hist.push(cur.clone());
+            let occ = hist.iter().filter(|h| **h == cur).count();
+            let want = game.result().is_none() && (occ >= 3 || clock >= 100);
+            let cur_lib = pos_id_lib(&game.current_position());
+            hist_lib.push(cur_lib.clone());
+            let occ_lib = hist_lib.iter().filter(|h| **h == cur_lib).count();
+            let want_lib = game.result().is_none() && (occ_lib >= 3 || clock >= 100);
+            let got = game.can_declare_draw();
+            cases += 1;
+            // a disagreement explained by the en-passant identity gap alone is the separately reported known finding
+            if got != want && got != want_lib {
+                println!(
+                    "{{\"ok\":false,\"cases\":{},\"witness\":{{\"what\":\"can_declare_draw disagrees with the rule\",\"got\":{},\"want\":{},\"occurrences\":{},\"halfmove_clock\":{},\"fen\":\"{}\",\"moves_from_start\":\"{}\"}}}}",
+                    cases, got, want, occ, clock, game.current_position(), text.trim()
+                );
+                std::process::exit(1);
+            }
+        }
+    }
+    println!("{{\"ok\":true,\"cases\":{}}}", cases);
+}
+
+
+/// the known finding on position identity: a double push beside an enemy pawn that is PINNED (en-passant capture illegal)
+/// gets an en-passant flag in the hash, so its first occurrence is not counted as a repetition of the later ones
+fn c11_ep() {
+    use std::str::FromStr;
+    let mut g = Game::from_str("4r2k/3p4/8/4P3/8/8/8/4K3 b - - 0 1").unwrap();
+    let line = ["d7d5", "e1d1", "e8e7", "d1e1", "e7e8", "e1d1", "e8e7", "d1e1", "e7e8"];
+    for t in line.iter() {
+        let m = ChessMove::from_str(t).unwrap();
+        if !g.make_move(m) {
+            println!("{{\"ok\":false,\"cases\":1,\"witness\":{{\"what\":\"legal move refused\",\"move\":\"{}\"}}}}", t);
+            std::process::exit(1);
+        }
+    }
+    // by the Laws the position after 1...d5 (en-passant capture impossible: the e5 pawn is pinned) has now occurred 3 times
+    let got = g.can_declare_draw();
+    if !got {
+        println!("{{\"ok\":false,\"cases\":1,\"witness\":{{\"what\":\"threefold repetition not claimable: first occurrence carries an en-passant flag although the capture is illegal (pinned pawn)\",\"start\":\"4r2k/3p4/8/4P3/8/8/8/4K3 b - - 0 1\",\"moves\":\"d7d5 e1d1 e8e7 d1e1 e7e8 e1d1 e8e7 d1e1 e7e8\",\"can_declare_draw\":false,\"rule_says\":true}}}}");
+        std::process::exit(1);
+    }
+    println!("{{\"ok\":true,\"cases\":1}}");
 }
